@@ -1,5 +1,21 @@
 // ---- spec/lemmas.rs: solver-side structural lemmas
 
+// has_ident is opaque (its recursive quantifier otherwise floods large queries): the level facts callers need
+pub proof fn lemma_children(e: Expression)
+    ensures
+        match e {
+            Expression::BooleanGroup(_, g) => forall|i: int| 0 <= i < g.len() ==> lvl(#[trigger] g[i]) <= lvl(e),
+            Expression::BooleanExpression(l, _, r) => lvl(*l) <= lvl(e) && lvl(*r) <= lvl(e),
+            Expression::Match(_, x) => lvl(*x) <= lvl(e),
+            Expression::Negate(x) => lvl(*x) <= lvl(e),
+            Expression::Nested(_, x) => lvl(*x) <= lvl(e),
+            Expression::Identifier(_) => lvl(e) == 1,
+            _ => true,
+        },
+{
+    reveal_with_fuel(has_ident, 2);
+}
+
 pub proof fn lemma_ids_wf(ids: Ids, k: String)
     requires ids_wf(ids), ids.contains_key(k),
     ensures solvable(ids[k]), wf(ids[k], ids), !has_ident(ids[k]),
@@ -155,4 +171,22 @@ pub proof fn lemma_group_reorder(op: BoolSym, g1: Vec<Expression>, g2: Vec<Expre
         }
     }
     if op == BoolSym::Or { lemma_or3_reorder(s1, s2, f); } else { lemma_and3_truth_reorder(s1, s2, f); }
+}
+
+// ---- Nested over an array: structural facts proved once (keeps the solver query small)
+pub proof fn lemma_nested_blocks(e0: Expression, ids: Ids)
+    requires
+        wf(e0, ids), e0 is Nested,
+        (*e0->Nested_1) is Match && (*e0->Nested_1)->Match_0 == Match::All && (*(*e0->Nested_1)->Match_1) is BooleanGroup,
+    ensures
+        ({
+            let inner = *(*e0->Nested_1)->Match_1;
+            let g = inner->BooleanGroup_1;
+            &&& wf(inner, ids)
+            &&& forall|j: int| 0 <= j < g.len() ==> solvable(#[trigger] g[j]) && wf(g[j], ids) && lvl(g[j]) <= lvl(e0)
+                && decreases_to!(e0 => g[j]) && decreases_to!(inner => g[j]) && lvl(g[j]) <= lvl(inner)
+        }),
+{
+    reveal_with_fuel(has_ident, 4);
+    reveal_with_fuel(wf, 3);
 }
